@@ -56,6 +56,41 @@ def _loop_callers(prog, R):
     return out
 
 
+def tol_mesh_snapping(ctx, prog, R):
+    """The stop test compares the mesh size (a power of the multiplier) with OS[tol_mesh]; the property speaks of the
+    user's tol_mesh.  mesh < snapped implies mesh < tol exactly when snapped = multiplier ** ceil(log(tol) / log(multiplier))
+    (the smallest mesh level >= tol) or snapped = tol itself; '1 + floor(.)' is one level too high when tol is itself a
+    mesh level.  Term identity with sympy (ceiling(x) == -floor(-x) is known to it; 1 + floor(x) is not equal)."""
+    import sympy as sp
+
+    from ..symb import Translator, Untranslatable, is_zero
+    from .common import deref_expr
+
+    n = 0
+    for fn, t, v, s, kind in key_stores(prog, "OS", "tol_mesh"):
+        n += 1
+        full = deref_expr(prog, fn, v)
+        c = canon(full)
+        if c in ("OPT[tol_mesh]", "float(OPT[tol_mesh])"):
+            ctx.ok(fn, s, "OS[tol_mesh] is the user's tolerance")
+            continue
+        ok, why = False, "not of the form multiplier ** <level>"
+        if isinstance(full, ast.BinOp) and isinstance(full.op, ast.Pow) and canon(full.left) in ("OPT[poll_mesh_multiplier]", "float(OPT[poll_mesh_multiplier])"):
+            tr = Translator(positive=["OPT[tol_mesh]", "OPT[poll_mesh_multiplier]"])
+            try:
+                lvl = tr.tr(full.right)
+                lvl = lvl.replace(lambda e_: isinstance(e_, sp.floor) and e_.args[0].could_extract_minus_sign(), lambda e_: -sp.ceiling(-e_.args[0]))
+                x = sp.log(tr.sym("OPT[tol_mesh]")) / sp.log(tr.sym("OPT[poll_mesh_multiplier]"))
+                ok = is_zero(lvl - sp.ceiling(x))
+                why = f"level {lvl} is not ceil(log(tol_mesh) / log(multiplier))"
+            except Untranslatable as e:
+                why = f"level uses a construct the term translator does not know ({e})"
+        ctx.check(ok, fn, s, "OS[tol_mesh] = multiplier ** ceil(log(tol_mesh)/log(multiplier)): the smallest mesh level >= the user's tolerance",
+                  f"the tolerance the stop test compares with is '{c[:80]}' ({why}): a run can be reported as stopped by the mesh tolerance while its mesh size is not below the user's tol_mesh", construct=f"OS[tol_mesh] <- {c[:70]}")
+    if n == 0:
+        ctx.missing(R.init_optim_state, "store of OS[tol_mesh]")
+
+
 def check(ctx):
     prog = ctx.prog
     R = roles_of(prog)
@@ -214,6 +249,7 @@ def check(ctx):
                 ctx.check(canon(node.test) == "(OS[mesh_size] < OS[tol_mesh])", opt, node, "tol_mesh message under mesh_size < tol_mesh", f"the tol_mesh termination message is guarded by '{canon(node.test)}'", construct=f"tol_mesh guard {canon(node.test)}")
     if not found:
         ctx.missing(opt, "termination message naming tol_mesh")
+    tol_mesh_snapping(ctx, prog, R)
     # ------------------------------------------------------------------ R5
     from . import meshflow
 
